@@ -636,6 +636,104 @@ theorem lo_journey_never_loops (c : Config) (p : Packet) (d : Nat) (dst' : Nat) 
           · simp [hs] at htp
           · exact (mangle_lo_tproxy_needs_1338 c p2 h2lo _ _ hs).2
 
+/-- mangle/OUTPUT never takes the TPROXY mark off a packet. -/
+theorem mangleOutput_keeps_tproxyMark (c : Config) (p q : Packet) (h : mangleOutputSpec c p = .accept q)
+    (hm : p.mark = c.tproxyMark) : q.mark = c.tproxyMark ∧ q.src = p.src := by
+  unfold mangleOutputSpec at h
+  split at h
+  · injection h with h; subst h; exact ⟨hm, rfl⟩
+  · split at h
+    · injection h with h; subst h; exact ⟨hm, rfl⟩
+    · rename_i h1 h2
+      injection h with h
+      subst h
+      refine ⟨?_, rfl⟩
+      simp only
+      split
+      · rename_i hc
+        simp only [Bool.and_eq_true, beq_iff_eq] at hc
+        exact hc.2
+      · split
+        · rename_i hs
+          -- a TCP packet on lo carrying the TPROXY mark was already returned by the rule before
+          exfalso
+          simp only [Bool.and_eq_true, Bool.not_eq_true'] at hs
+          have : (isTcp p && onLo p && p.mark == c.tproxyMark) = true := by
+            simp [hs.1.1.1, hs.1.1.2, hm]
+          exact h2 this
+        · exact hm
+
+/-- A bypassed packet is never handed to TPROXY. -/
+theorem bypass_no_tproxy (c : Config) (p : Packet) (hb : tproxyBypass c p = true) (port : Nat) (q : Packet) :
+    manglePreroutingSpec c p ≠ .tproxy port q := by
+  unfold manglePreroutingSpec
+  simp only [hb, Bool.not_true, Bool.false_eq_true, if_false, Bool.and_false, Bool.false_and]
+  repeat' split
+  all_goals simp
+
+/-- **never loop, across hooks, the proxy's own deliveries** (TPROXY mode matters): a packet sent at
+    OUTPUT from the passthrough source 127.0.0.6 / ::6 (Envoy inbound -> application), or carrying the
+    TPROXY mark (Envoy's original-source connections), is NOT handed to TPROXY when it comes back in
+    through `lo` - whoever owns it, whatever its destination. Together with `lo_journey_never_loops` this
+    leaves, at the second hook, exactly the proxy's mark-1338 call-to-self. -/
+theorem lo_journey_proxy_deliveries_not_recaptured (c : Config) (p : Packet) (d : Nat) (dst' : Nat)
+    (hh : p.hook = .output)
+    (hby : (if p.v6 then src6 else src4).contains p.src = true ∨ p.mark = c.tproxyMark) :
+    match (loJourney (d + 2) (rulesOf c p.fam) p dst').2 with
+    | none => True
+    | some f2 => f2.tproxy = none ∧ f2.redirect = none := by
+  have hj := lo_journey_never_loops c p d dst' hh
+  unfold loJourney at hj ⊢
+  simp only at hj ⊢
+  split
+  · trivial
+  · rename_i f2 hf2
+    rw [hf2] at hj
+    refine ⟨?_, hj.1⟩
+    split at hf2
+    · simp at hf2
+    · injection hf2 with hf2
+      rw [fate_correct] at hf2
+      -- the packet leaving OUTPUT
+      have hpk : (specFate c p).pkt.v6 = p.v6 ∧ (specFate c p).pkt.src = p.src ∧
+          (p.mark = c.tproxyMark → (specFate c p).pkt.mark = c.tproxyMark) := by
+        by_cases hv : (p.v6 && !c.enableIPv6) = true
+        · have key : (specFate c p).pkt = p := by simp [specFate, hv]
+          rw [key]; exact ⟨rfl, rfl, id⟩
+        · have hv' : (p.v6 && !c.enableIPv6) = false := by simpa using hv
+          rcases mangleOutputSpec_shape c p with ⟨m, hs⟩
+          have key : (specFate c p).pkt = { p with mark := m } := by
+            simp only [specFate, hv', Bool.false_eq_true, if_false, List.foldl, specStep, Bool.or_self,
+              show (Table.raw == Table.nat) = false from rfl, show (Table.mangle == Table.nat) = false from rfl,
+              Bool.false_and, mangleSpec, hh, hs, beq_self_eq_true, Bool.true_and]
+            split
+            · rfl
+            · rcases natSpec_shape c { p with hook := Hook.output, mark := m } with h | ⟨port, h⟩ <;> simp [h]
+          rw [key]
+          exact ⟨rfl, rfl, fun hm => (mangleOutput_keeps_tproxyMark c p _ hs hm).1⟩
+      generalize hp2 : reenterLo (specFate c p) dst' = p2 at hf2
+      have h2h : p2.hook = .prerouting := by rw [← hp2]; rfl
+      have h2lo : p2.inIf = "lo" := by rw [← hp2]; rfl
+      have h2m : p2.mark = (specFate c p).pkt.mark := by rw [← hp2]; rfl
+      have h2s : p2.src = p.src := by rw [← hp2]; exact hpk.2.1
+      have h2v : p2.v6 = p.v6 := by rw [← hp2]; exact hpk.1
+      have h2f : p2.fam = p.fam := by simp [Packet.fam, h2v]
+      have hb : tproxyBypass c p2 = true := by
+        rcases hby with hs | hm
+        · simp [tproxyBypass, inLo, h2lo, h2s, h2v, hs]
+        · simp [tproxyBypass, h2m, hpk.2.2 hm]
+      rw [← h2f] at hf2
+      subst hf2
+      rw [fate_correct]
+      by_cases hv : (p2.v6 && !c.enableIPv6) = true
+      · simp [specFate, hv]
+      · have hv' : (p2.v6 && !c.enableIPv6) = false := by simpa using hv
+        rw [specFate_lo_prerouting c p2 h2h h2lo hv']
+        rcases manglePreroutingSpec_shape c p2 with hs | ⟨m, cm, hs | hs⟩
+        · simp [hs]
+        · simp [hs]
+        · exact absurd hs (bypass_no_tproxy c p2 hb _ _)
+
 /-! ## DNS: the agent's own TCP DNS -/
 
 theorem identityWalk_uid53 (c : Config) (p : Packet) (uids : List String) (rest : List OwnerId)
@@ -1047,5 +1145,23 @@ example : ((loJourney stackDepth (rulesOf { exCfg with tproxy := true } .v4)
     { exApp with uid := "1337", outIf := "lo", dst := 167838211, dport := 15008 } 2130706433).2.map
     (fun f => (f.redirect, f.tproxy, f.pkt.mark))) = some (none, some 15006, 1337) := by decide
 
+
+/-- TPROXY mode: Envoy's delivery to the application from 127.0.0.6, and a connection carrying the
+    TPROXY mark 1337, sent on `lo` to the pod's own address on a captured port: not captured again. -/
+example : ((loJourney stackDepth (rulesOf { exCfg with tproxy := true } .v4)
+    { exApp with uid := "1337", outIf := "lo", src := 2130706438, dst := 167838211, dport := 8080 } 2130706433).2.map
+    (fun f => (f.redirect, f.tproxy))) = some (none, none) := by decide
+example : ((loJourney stackDepth (rulesOf { exCfg with tproxy := true } .v4)
+    { exApp with uid := "1337", outIf := "lo", dst := 167838211, dport := 15008, mark := 1337 } 2130706433).2.map
+    (fun f => (f.redirect, f.tproxy))) = some (none, none) := by decide
+
+/-- Observation (recorded): drop-invalid and excluded interfaces interact differently in the two modes.
+    In REDIRECT mode an INVALID packet arriving on an excluded interface is dropped (mangle has no
+    excluded-interface RETURN there); in TPROXY mode the RETURN comes first and it passes. -/
+theorem drop_invalid_excluded_interface_witness :
+    (fateOf { exCfg with dropInvalid := true }
+      { exApp with hook := .prerouting, inIf := "docker0", outIf := "", ctstate := .invalid }).dropped = true ∧
+    (fateOf { exCfg with dropInvalid := true, tproxy := true }
+      { exApp with hook := .prerouting, inIf := "docker0", outIf := "", ctstate := .invalid }).dropped = false := by decide
 
 end IstioModel.C20
